@@ -48,6 +48,11 @@ func checkC01(c *Ctx) {
 		c.writerCriticalSpan()
 	}
 	c.queueIndexRules()
+	c.growRules()
+	// the QoS set per subscriber reaches the wire: in-place flag changes are views of the decode buffer, and
+	// a change that moves the packet identifier in or out marks the message dirty
+	c.viewsOfDecodeBuffer()
+	c.setQoSMarksDirtyWhenIDAppears()
 	lockBalance(c, func(cl string) bool { return strings.HasPrefix(cl, "topics.") }, "topic-store")
 }
 
